@@ -36,10 +36,15 @@ OPENS = [
     {"TSQL_NO_SEMICOLON": "yes"},  # coercion str -> bool
     {"LATERAL_COLUMN_ALIAS_REFERENCE": 5, "DIRECTORY": 7},  # coercion int -> bool, int -> str
     {"TSQL_NO_SEMICOLON": "off"},
+    {"DEFAULT_SCHEMA": 1},  # equal-but-differently-typed values: 1 / True / 1.0 coerce to '1' / 'True' / '1.0'
+    {"DEFAULT_SCHEMA": True},
+    {"DEFAULT_SCHEMA": 1.0, "TSQL_NO_SEMICOLON": 0},
+    {"TSQL_NO_SEMICOLON": "0", "DIRECTORY": False},
     {"BOGUS": 1},  # unknown key
     {"DEFAULT_SCHEMA": "c", "BOGUS": 1},  # valid then unknown
     {"BOGUS": 1, "DEFAULT_SCHEMA": "c"},  # unknown then valid
 ]
+FIRST_INVALID = next(i for i, o in enumerate(OPENS) if "BOGUS" in o)
 TRUTHY = ("true", "on", "ok", "y", "yes", "1")
 
 
@@ -88,9 +93,14 @@ def restore_seam():
         _SQLLineageConfigLoader.get_ident = _SEAM.pop("orig")
 
 
+def ident_of(t):
+    """virtual thread 0 carries the identifier of the real main thread (code that treats the main thread specially is in scope)"""
+    return threading.main_thread().ident if t == 0 else 100 + t
+
+
 def _ops():
     ops = [("open", i) for i in range(len(OPENS))]
-    ops += [("close", 0), ("close_exc", 0)]
+    ops += [("close", 0), ("close_exc", 0), ("close_sysexit", 0), ("close_genexit", 0), ("close_kbd", 0)]
     ops += [("assign", k) for k in ("DEFAULT_SCHEMA", "TSQL_NO_SEMICOLON")]
     return ops
 
@@ -114,7 +124,7 @@ def build(hist):
             env_idx = arg
             set_env(ENVS[env_idx])
         else:
-            CUR[0] = 100 + t
+            CUR[0] = ident_of(t)
             if op == "open":
                 kw = OPENS[arg]
                 accepted = True
@@ -132,13 +142,14 @@ def build(hist):
                     stacks[t].append({k: ref_coerce(v, TYPES[k]) for k, v in kw.items()})
                 if accepted != valid and last:
                     problems.append(("open-accepted" if accepted else "open-rejected", kw))
-            elif op in ("close", "close_exc"):
+            elif op.startswith("close"):
                 if not stacks[t]:
                     raise HarnessError("close not enabled")
-                exc = (ValueError, ValueError("x"), None) if op == "close_exc" else (None, None, None)
+                et = {"close": None, "close_exc": ValueError, "close_sysexit": SystemExit, "close_genexit": GeneratorExit, "close_kbd": KeyboardInterrupt}[op]
+                exc = (et, et("x"), None) if et else (None, None, None)
                 swallowed = cfg.__exit__(*exc)
                 stacks[t].pop()
-                if swallowed and op == "close_exc" and last:
+                if swallowed and op != "close" and last:
                     problems.append(("exit-swallows-exception", None))
             elif op == "assign":
                 try:
@@ -150,7 +161,7 @@ def build(hist):
         if last:
             env = ENVS[env_idx]
             for tt in range(NT):
-                CUR[0] = 100 + tt
+                CUR[0] = ident_of(tt)
                 for k in KEYS:
                     exp = ref_visible(type(cfg), stacks[tt], env, k)
                     try:
@@ -172,7 +183,7 @@ def enabled(stacks, env_idx, hist, max_env_flips: int):
     evs = []
     for t in range(NT):
         for op, arg in _ops():
-            if op in ("close", "close_exc") and not stacks[t]:
+            if op.startswith("close") and not stacks[t]:
                 continue
             evs.append((t, op, arg))
     flips = sum(1 for h in hist if h[1] == "env")
@@ -221,7 +232,7 @@ def op_level(rep: Report, max_depth: int, max_env_flips: int):
                 seen[k] = h2
                 frontier.append(h2)
                 depth_reached = max(depth_reached, len(h2))
-                if sum(1 for s in st2.values() if s) >= 2 or any(x[1] == "open" and x[2] >= 6 for x in h2):
+                if sum(1 for s in st2.values() if s) >= 2 or any(x[1] == "open" and x[2] >= FIRST_INVALID for x in h2):
                     nontrivial += 1
                 if len(h2) == 4 and len(sample_hist) < 3:
                     sample_hist.append([list(x) for x in h2])
